@@ -379,7 +379,195 @@ def pred_c04(prog, ob):
     return None
 
 
-PREDS = {"C04": pred_c04, "C03": pred_c03, "C05": pred_c05, "C06": pred_c06, "C09": pred_c09, "C11": pred_c11}
+# ---------------------------------------------------------------------------
+# statements evaluated on the oracle log (kernel.install_oracle): C04 / C08 / C09 / C10
+# ---------------------------------------------------------------------------
+def _fms(prog):
+    return {fm["name"]: fm for fm in prog["framers"]}
+
+
+def exen(nears, far, fars):
+    """independent statement of Framer.ExEn on frame names"""
+    for i in range(min(len(nears), len(fars))):
+        if nears[i] == far or nears[i] != fars[i]:
+            return nears[i:], fars[i:], nears[:i]
+    return [], [], nears[:]
+
+
+def guard_ok(prog, S, fm, fr, exits, depth=0):
+    """None if frame fr of framer fm may be entered in snapshot S (its own before-enter needs hold, every plain
+    auxiliary is free / its own / owned by a frame being exited, and the auxiliary's first outline may be
+    entered), else the reason"""
+    fms = _fms(prog)
+    if depth > 12:
+        return None
+    if not S[fm][0].get(fr, True):
+        return "before-enter needs of frame %s of %s are false" % (fr, fm)
+    for ax in fr_by_name(fms[fm])[fr].get("auxes", []):
+        owner = S[ax][2]
+        if owner and owner != [fm, fr] and not (owner[0] == fm and owner[1] in exits):
+            return "auxiliary %s of frame %s is owned by frame %s of %s which is not being exited" % (
+                ax, fr, owner[1], owner[0])
+        for f in outline_of(fms[ax], fms[ax]["first"]):
+            why = guard_ok(prog, S, ax, f, [], depth + 1)
+            if why:
+                return "auxiliary %s of frame %s: %s" % (ax, fr, why)
+    return None
+
+
+def start_ok(prog, S, fm):
+    fms = _fms(prog)
+    for f in outline_of(fms[fm], fms[fm]["first"]):
+        why = guard_ok(prog, S, fm, f, [])
+        if why:
+            return why
+    return None
+
+
+def pred_c08(prog, ob):
+    """no frame is entered whose guard, evaluated independently at the moment of the attempt, is false; a
+    refused transition logs nothing and leaves outline, elapsed and recurred as they were"""
+    fms = _fms(prog)
+    for e in ob.get("oracle", []):
+        if e[0] == "transit" and e[8] is not None:
+            _, tk, fm, near, far, S, nk, p0, p1, taken, aft = e[:11]
+            actives = S[fm][1]
+            exits, enters, _re = exen(actives, far, outline_of(fms[fm], far))
+            if taken:
+                for f in enters:
+                    why = guard_ok(prog, S, fm, f, exits)
+                    if why:
+                        return ("guard-bypassed", "tick %d: framer %s went from %s to %s (enters %s, exits %s) although "
+                                "%s at the moment of the attempt" % (tk, fm, near, far, enters, exits, why))
+            else:
+                acted = [x for x in ob["trace"][p0:p1]]
+                if acted:
+                    return ("refused-transition-acted", "tick %d: refused transition %s -> %s of %s ran actions %s"
+                            % (tk, near, far, fm, acted[:4]))
+                if aft != [actives, S[fm][4], S[fm][5]]:
+                    return ("refused-transition-changed-state", "tick %d: refused transition %s -> %s of %s changed "
+                            "(outline, elapsed, recurred) from %s to %s" % (tk, near, far, fm,
+                                                                           [actives, S[fm][4], S[fm][5]], aft))
+        elif e[0] == "enterAll" and e[3]:
+            why = start_ok(prog, e[4], e[2])
+            if why:
+                return ("start-guard-bypassed", "tick %d: framer %s was entered at its first frame although %s at that "
+                        "moment" % (e[1], e[2], why))
+    return None
+
+
+def pred_c04_start(prog, ob):
+    """a start (ready) of a stopped/readied tasker yields started (readied) iff the first-frame conditions,
+    evaluated independently when the control arrives, hold; otherwise the tasker is left stopped"""
+    for e in ob.get("oracle", []):
+        if e[0] != "ctl" or e[8] is None or e[4] not in (0, 4):
+            continue
+        _, tk, fm, ctl, s0, S, p0, p1, s1 = e
+        why = start_ok(prog, S, fm)
+        want = (1 if ctl == 1 else 4) if why is None else 0
+        if s1 != want:
+            return ("start-conditions", "tick %d: %s sent to %s in status %d returned status %d, expected %d (%s)"
+                    % (tk, "start" if ctl == 1 else "ready", fm, s0, s1, want,
+                       why or "first-frame conditions hold"))
+    return None
+
+
+def pred_c09_done(prog, ob):
+    """'is done' needs observe exactly the completion state: reset when the framer is (re)entered at its first
+    frame, set by the done verb and by a full exit"""
+    fms = _fms(prog)
+    done = {}
+    for e in ob.get("oracle", []):
+        k = e[0]
+        if k == "enterAll":
+            done[e[2]] = False
+        elif k == "done":
+            done[e[2]] = True
+        elif k == "exitAll":
+            if not e[3]:
+                done[e[2]] = True
+        elif k == "needdone":
+            if e[2] in done and done[e[2]] != e[3]:
+                return ("done-need", "tick %d: 'if %s is done' evaluated %s but %s %s" % (
+                    e[1], e[2], e[3], e[2], "had completed (done verb / full exit since its last entry)"
+                    if done[e[2]] else "had been re-entered and not completed since"))
+        elif k == "needdoneaux":
+            _, tk, who, fm, fr, r, _p = e
+            if fr is None:
+                if who in done and done[who] != r:
+                    return ("done-need", "tick %d: 'if aux %s is done' evaluated %s, completion state %s" % (
+                        tk, who, r, done[who]))
+                continue
+            auxes = fr_by_name(fms[fm])[fr].get("auxes", [])
+            if any(a not in done for a in auxes):
+                continue
+            if who == "any":
+                want = any(done[a] for a in auxes)
+            elif who == "all":
+                want = bool(auxes) and all(done[a] for a in auxes)
+            else:
+                want = done[who] if who in auxes else False
+            if bool(r) != want:
+                return ("done-need", "tick %d: 'if %s in frame %s is done' of %s evaluated %s, completion states %s"
+                        % (tk, who, fr, fm, r, {a: done[a] for a in auxes}))
+    return None
+
+
+def pred_c10(prog, ob):
+    """a conditional auxiliary that is not entered, whose conditions hold, which is free and may start, is
+    entered by the attempt; the frames below its main frame are suspended (truthy result) only while it is
+    entered"""
+    entered = {}
+    done = {}
+    orc = ob.get("oracle", [])
+    for i, e in enumerate(orc):
+        k = e[0]
+        if k == "enterAll":
+            entered[e[2]] = True
+            done[e[2]] = False
+        elif k == "exitAll":
+            entered[e[2]] = False
+        elif k == "done":
+            done[e[2]] = True
+        elif k == "suspend" and e[8] is not None and len(e) > 11:
+            _, tk, fm, main, aux, S, nk, p0, p1, res, aft, end = e
+            was = entered.get(aux, False)
+            nested = orc[i + 1:end]
+            now = was
+            started = False
+            for x in nested:
+                if x[0] == "enterAll" and x[2] == aux:
+                    now, started = True, True
+                elif x[0] == "exitAll" and x[2] == aux:
+                    now = False
+            owner = S[aux][2]
+            free = (not owner) or owner == [fm, main]
+            if not was and nk and free and start_ok(prog, S, aux) is None and not started:
+                return ("condaux-not-entered", "tick %d: conditional auxiliary %s of frame %s of %s was not running, its "
+                        "conditions held, it was free and startable, yet it was not entered" % (tk, aux, main, fm))
+            if not was and started and not (nk and free and start_ok(prog, S, aux) is None):
+                return ("condaux-entered-unduly", "tick %d: conditional auxiliary %s of frame %s of %s was entered although "
+                        "%s" % (tk, aux, main, fm, "its conditions were false" if not nk else
+                                ("it is owned by %s" % owner if not free else start_ok(prog, S, aux))))
+            completed = done.get(aux, False) or any(x[0] == "done" and x[2] == aux for x in nested)
+            for x in nested:       # a done verb counts only if it follows the (re)entry of this call
+                if x[0] == "enterAll" and x[2] == aux:
+                    completed = False
+                elif x[0] == "done" and x[2] == aux:
+                    completed = True
+            mine = started or (was and owner == [fm, main])
+            if mine and completed and (now or res):
+                return ("completed-condaux-not-exited", "tick %d: conditional auxiliary %s of frame %s of %s executed "
+                        "'done' but %s" % (tk, aux, main, fm, "is still entered" if now else
+                                           "the frames below its main frame stay suspended"))
+            if res and not now:
+                return ("suspended-without-aux", "tick %d: the frames below %s of %s were suspended by conditional "
+                        "auxiliary %s which is not entered (exited and never re-entered)" % (tk, main, fm, aux))
+    return None
+
+
+PREDS = {"C04": pred_c04, "C03": pred_c03, "C05": pred_c05, "C06": pred_c06, "C09": pred_c09, "C11": pred_c11,
+         "C08": pred_c08, "C04s": pred_c04_start, "C09d": pred_c09_done, "C10": pred_c10}
 
 
 def kernel_check(ctx, pid, runs, preds, rule, extra_assumptions=(), corpus=(), extra_checks=()):
